@@ -4,7 +4,7 @@
 -/
 import Simpleline.Lemmas.InputInv
 
-namespace Simpleline
+namespace Simpleline.Input
 
 /-! ### routing is not affected by enqueuing -/
 
@@ -201,4 +201,4 @@ theorem handlers_counts {P : Prog} {c0 c : Cfg} (h0 : Started c0) (hU : UserHand
     simp only [initCfg, List.cons_append, List.nil_append, List.count_cons, ihReg, h1]
     simp
 
-end Simpleline
+end Simpleline.Input
